@@ -39,16 +39,18 @@ def fam_fixed_all(rng, tier):
 
 
 def fam_v9(rng, tier):
-    return gen.fam_stream(rng, n(tier, 300, 3000), versions=(9,), calls=(1, 5)) + gen.fam_redefine(rng, n(tier, 40, 300))
+    return gen.fam_stream(rng, n(tier, 200, 2000), versions=(9,), calls=(1, 5)) + gen.fam_redefine(rng, n(tier, 40, 300)) + \
+        gen.fam_stream(rng, n(tier, 200, 2000), versions=(9,), calls=(1, 5), lossless=True)
 
 
 def fam_ipfix(rng, tier):
-    return gen.fam_stream(rng, n(tier, 300, 3000), versions=(10,), calls=(1, 5)) + gen.fam_redefine(rng, n(tier, 40, 300))
+    return gen.fam_stream(rng, n(tier, 200, 2000), versions=(10,), calls=(1, 5)) + gen.fam_redefine(rng, n(tier, 40, 300)) + \
+        gen.fam_stream(rng, n(tier, 300, 3000), versions=(10,), calls=(1, 5), lossless=True, simple_ipfix=True)
 
 
 def fam_cache(rng, tier):
-    return gen.fam_isolation(rng, n(tier, 60, 500)) + gen.fam_redefine(rng, n(tier, 80, 600)) + \
-        gen.fam_stream(rng, n(tier, 100, 800), simple_ipfix=True) + gen.fam_chain(rng, n(tier, 30, 200))
+    return gen.fam_isolation(rng, n(tier, 60, 500)) + gen.fam_redefine(rng, n(tier, 80, 600), lossless=True) + \
+        gen.fam_stream(rng, n(tier, 100, 800), simple_ipfix=True, lossless=True)
 
 
 def fam_c07(rng, tier):
@@ -70,7 +72,7 @@ def fam_c14(rng, tier):
 
 
 def fam_c13(rng, tier):
-    return gen.fam_common(rng, n(tier, 150, 1500)) + gen.fam_fixed(rng, n(tier, 40, 300))
+    return gen.fam_common(rng, n(tier, 150, 1500)) + gen.fam_fixed(rng, n(tier, 40, 300)) + gen.fam_fixed_protocols(rng)
 
 
 STREAM_RULE = "conformant multi-call histories from the RFC-level generator (templates drawn from the library's type tables plus unknown types, supported widths, enterprise / variable-length / zero-length fields, 1-3 template records per set, options templates, paddings), encoded by the Lean specification writer Spec.enc"
